@@ -245,6 +245,7 @@ type c06Env struct {
 	noForcedWake bool // wake-up lane: do not broadcast on cc.cond after every operation
 	lostWakeups  []string
 	curTok       string // the operation in progress (for diagnostics)
+	settingsSent bool   // the peer has sent its first SETTINGS frame
 	exactHits    int    // adaptive scripts: header / trailer blocks of exactly the targeted length
 
 	deadSeen int
@@ -540,8 +541,8 @@ func (e *c06Env) collect(pred func() bool, d time.Duration) bool {
 
 // sync: everything the client wrote before answering this PING has been received.
 func (e *c06Env) sync() {
-	if e.closed {
-		return
+	if e.closed || !e.settingsSent {
+		return // (the client insists on SETTINGS as the peer's first frame: no barrier PING before it)
 	}
 	e.pingSeq++
 	var d [8]byte
@@ -1029,6 +1030,7 @@ func (e *c06Env) peerSettings(vals []xhttp2.Setting) string {
 		}
 	}
 	e.fr.WriteSettings(vals...)
+	e.settingsSent = true
 	e.pendSettings = append(e.pendSettings, vals)
 	want := e.ackSeen + 1
 	e.collect(func() bool { return e.ackSeen >= want }, c06Wait)
